@@ -267,6 +267,9 @@ def write_complete_rules(ck, P):
 
 def rules(ck, P):
     write_complete_rules(ck, P)
+    # PMTiles tile ids: Hilbert digit tables, quadrant transform, level base, step order (finite tables and term shapes)
+    from . import hilbert as _hilbert
+    _hilbert.rules(ck, P)
     from . import c17 as _c17
     _c17.mbtiles_meta_rule(ck, P)       # the MBTiles metadata rows also carry the declared format (shared with C17)
     # a written .versatiles container is read back (convert, pipelines) through the reader's bbox stream, which re-derives coordinates from
